@@ -148,3 +148,526 @@ Lemma existsb_in : forall c l, existsb (Nat.eqb c) l = true <-> In c l.
 Proof.
   intros. rewrite existsb_exists. split; [intros (x & Hx & E); apply Nat.eqb_eq in E; subst; exact Hx|intros Hx; exists c; split; [exact Hx|apply Nat.eqb_refl]].
 Qed.
+
+Lemma flat_map_upd_same : forall A B (f : A -> list B) l c y x, nth_error l c = Some y -> f x = f y ->
+  flat_map f (set_nth c l x) = flat_map f l.
+Proof.
+  intros A B f l c y x Hn E. destruct (set_nth_split _ l c y Hn) as (l1 & l2 & El & _ & Hs). subst l.
+  rewrite Hs, !flat_map_app. cbn [flat_map]. rewrite E. reflexivity.
+Qed.
+
+Lemma P_sm_transfer : forall conns sms us conns' sms' us', P_sm conns sms us ->
+  Permutation (us' ++ flat_map opt_sm conns') (us ++ flat_map opt_sm conns) ->
+  (forall s, smlive sms' s <-> smlive sms s) -> P_sm conns' sms' us'.
+Proof.
+  intros conns sms us conns' sms' us' (ND & Hin) P Hl. destruct (perm_nodup_in _ _ P) as (A & B). split; [apply A, ND|].
+  intros s. rewrite B, Hin, Hl. tauto.
+Qed.
+
+Lemma P_blk_transfer : forall conns sms bl conns' sms' bl', P_blk conns sms bl ->
+  Permutation (flat_map opt_blocks conns' ++ flat_map sm_blocks sms') (flat_map opt_blocks conns ++ flat_map sm_blocks sms) ->
+  (forall b, blive bl' b <-> blive bl b) -> P_blk conns' sms' bl'.
+Proof.
+  intros conns sms bl conns' sms' bl' (ND & Hin) P Hl. destruct (perm_nodup_in _ _ P) as (A & B). split; [apply A, ND|].
+  intros b. rewrite B, Hin, Hl. tauto.
+Qed.
+
+Lemma w_conn_some : forall w c x, nth_error (w_conns w) c = Some (Some x) -> w_conn w c = Some x.
+Proof. intros w c x E. unfold w_conn. rewrite E. reflexivity. Qed.
+
+Definition cok (o : cout) : Prop := o <> CUAF /\ o <> CDoubleFree.
+
+(* permutations of concatenations, by counting *)
+Ltac perm_count :=
+  apply (proj2 (Permutation_count_occ Nat.eq_dec _ _)); intro;
+  repeat (progress (repeat rewrite count_occ_app; cbn [count_occ]));
+  repeat (match goal with |- context [Nat.eq_dec ?a ?b] => destruct (Nat.eq_dec a b) end;
+          repeat (progress (repeat rewrite count_occ_app; cbn [count_occ]))); lia.
+
+(* conn_disconnect + _conn_reset *)
+Lemma conn_reset_inv : forall w c x, CInv w -> nth_error (w_conns w) c = Some (Some x) ->
+  exists w', conn_reset true w c x = Ok w' /\ CInv w' /\
+    w_conns w' = set_nth c (w_conns w) (Some (mkC (c_ref x) false [] [] (c_sm x))) /\ w_sms w' = w_sms w /\
+    w_user_conn w' = w_user_conn w /\ w_user_sm w' = w_user_sm w.
+Proof.
+  intros w c x (Pr & Ps & (NDb & Hb)) Hn. unfold conn_reset.
+  destruct (flat_map_set_nth _ _ opt_blocks (w_conns w) c (Some x) Hn) as (R & PR & PR').
+  assert (Pall : Permutation (flat_map opt_blocks (w_conns w) ++ flat_map sm_blocks (w_sms w))
+                             (opt_blocks (Some x) ++ (R ++ flat_map sm_blocks (w_sms w)))).
+  { rewrite PR. perm_count. }
+  destruct (perm_nodup_in _ _ Pall) as (A & B).
+  pose proof (proj1 A NDb) as ND'. apply nodup_app in ND'. destruct ND' as (NDx & NDrest & Dis).
+  destruct (bfree_all_ok (opt_blocks (Some x)) (w_blocks w) NDx) as (bl' & E & Len & Hl).
+  { intros b Hbx. apply Hb, B, in_or_app. left. exact Hbx. }
+  cbn [opt_blocks] in E. rewrite bfree_all_app in E.
+  destruct (bfree_all (w_blocks w) (c_queue x)) as [bl1| | |] eqn:E1; cbn [bind] in E; try discriminate.
+  cbn [bind]. rewrite E. cbn [bind]. eexists. split; [reflexivity|]. unfold set_conn, CInv. cbn [w_conns w_sms w_user_conn w_user_sm w_blocks].
+  split; [|repeat split; reflexivity]. split; [|split].
+  - eapply P_ref_upd; [exact Pr|exact Hn|reflexivity].
+  - eapply P_sm_transfer; [exact Ps| |intros; reflexivity]. erewrite flat_map_upd_same; [reflexivity|exact Hn|reflexivity].
+  - assert (PR0 : Permutation (flat_map opt_blocks (set_nth c (w_conns w) (Some (mkC (c_ref x) false [] [] (c_sm x)))) ++ flat_map sm_blocks (w_sms w))
+                              (R ++ flat_map sm_blocks (w_sms w))).
+    { rewrite (PR' (Some (mkC (c_ref x) false [] [] (c_sm x)))). reflexivity. }
+    destruct (perm_nodup_in _ _ PR0) as (A0 & B0). split; [apply A0, NDrest|].
+    intros b. rewrite B0, Hl, <- Hb, B. split.
+    + intros Hr. split; [apply in_or_app; right; exact Hr|]. intros Hx. apply (Dis b Hx Hr).
+    + intros (Hall & Hn'). apply in_app_or in Hall. destruct Hall as [Hx|Hr]; [contradiction|exact Hr].
+Qed.
+
+(* xmpp_free_sm_state of an SM state that nobody else references *)
+Lemma sm_free_inv : forall conns sms bl uc us s,
+  P_blk conns sms bl -> smlive sms s ->
+  exists bl', sm_free (mkW bl conns sms uc us) s = Ok (mkW bl' conns (set_nth s sms None) uc us) /\
+              P_blk conns (set_nth s sms None) bl' /\
+              (forall s', smlive (set_nth s sms None) s' <-> smlive sms s' /\ s' <> s).
+Proof.
+  intros conns sms bl uc us s (NDb & Hb) (q & Hq). unfold sm_free. cbn [w_sms w_blocks w_conns w_user_conn w_user_sm]. rewrite Hq.
+  destruct (flat_map_set_nth _ _ sm_blocks sms s (Some q) Hq) as (R & PR & PR').
+  assert (Pall : Permutation (flat_map opt_blocks conns ++ flat_map sm_blocks sms) (q ++ (flat_map opt_blocks conns ++ R))).
+  { rewrite PR. cbn [sm_blocks]. perm_count. }
+  destruct (perm_nodup_in _ _ Pall) as (A & B).
+  pose proof (proj1 A NDb) as ND'. apply nodup_app in ND'. destruct ND' as (NDq & NDrest & Dis).
+  destruct (bfree_all_ok q bl NDq) as (bl' & E & Len & Hl).
+  { intros b Hbq. apply Hb, B, in_or_app. left. exact Hbq. }
+  rewrite E. cbn [bind]. exists bl'. split; [reflexivity|]. split.
+  - assert (PR0 : Permutation (flat_map opt_blocks conns ++ flat_map sm_blocks (set_nth s sms None)) (flat_map opt_blocks conns ++ R)).
+    { rewrite (PR' None). reflexivity. }
+    destruct (perm_nodup_in _ _ PR0) as (A0 & B0). split; [apply A0, NDrest|].
+    intros b. rewrite B0, Hl, <- Hb, B. split.
+    + intros Hr. split; [apply in_or_app; right; exact Hr|]. intros Hx. apply (Dis b Hx Hr).
+    + intros (Hall & Hn'). apply in_app_or in Hall. destruct Hall as [Hx|Hr]; [contradiction|exact Hr].
+  - intros s'. unfold smlive. destruct (Nat.eq_dec s s') as [Es|Es].
+    + subst. rewrite nth_error_set_nth_same by (apply nth_error_Some; congruence). split; [intros (q' & D); discriminate|intros (_ & N); congruence].
+    + rewrite nth_error_set_nth_other by exact Es. split; [intros D; split; [exact D|congruence]|tauto].
+Qed.
+
+(* ------------------------------------------------------------------------------------ *)
+(* every call preserves the invariants                                                    *)
+(* ------------------------------------------------------------------------------------ *)
+Lemma count_cons_other : forall l c c', c' <> c -> count_nat (c :: l) c' = count_nat l c'.
+Proof. intros. rewrite count_nat_cons. destruct (Nat.eqb_spec c' c); [congruence|lia]. Qed.
+
+Lemma count_cons_same : forall l c, count_nat (c :: l) c = 1 + count_nat l c.
+Proof. intros. rewrite count_nat_cons, Nat.eqb_refl. reflexivity. Qed.
+
+Lemma perm_remove1 : forall l c, In c l -> Permutation l (c :: remove1 c l).
+Proof.
+  induction l as [|y l IH]; intros c Hin; [destruct Hin|]. cbn [remove1]. destruct (Nat.eqb_spec c y) as [E|E].
+  - subst. reflexivity.
+  - destruct Hin as [Hin|Hin]; [congruence|]. rewrite (IH c Hin) at 1. apply perm_swap.
+Qed.
+
+Lemma cstep_inv : forall w o, CInv w ->
+  exists w' out, cstep true w o = (Some w', out) /\ CInv w' /\ cok out.
+Proof.
+  intros w o I. pose proof I as (Pr & Ps & Pb).
+  assert (Hheld : forall c, existsb (Nat.eqb c) (w_user_conn w) = true ->
+            exists x, nth_error (w_conns w) c = Some (Some x) /\ w_conn w c = Some x /\ c_ref x = count_nat (w_user_conn w) c /\ 1 <= c_ref x).
+  { intros c Hc. apply existsb_in in Hc. destruct (P_ref_held _ _ c Pr Hc) as (x & E & A & B). exists x. split; [exact E|]. split; [apply w_conn_some; exact E|tauto]. }
+  assert (Hsame : exists out, (Some w, out) = (Some w, out) /\ CInv w) by (exists COk; tauto).
+  destruct o; cbn [cstep].
+  - (* new *)
+    eexists; eexists. split; [reflexivity|]. split; [|split; discriminate]. unfold CInv. cbn [w_conns w_sms w_user_conn w_user_sm w_blocks].
+    split; [|split].
+    + intros c. rewrite nth_error_snoc. destruct (Nat.ltb_spec c (length (w_conns w))) as [Hl|Hl].
+      * rewrite count_cons_other by lia. apply Pr.
+      * pose proof (Pr c) as Pc. rewrite (proj2 (nth_error_None _ _) Hl) in Pc.
+        destruct (Nat.eqb_spec c (length (w_conns w))) as [E|E].
+        -- subst c. rewrite count_cons_same, Pc. cbn [c_ref]. lia.
+        -- rewrite count_cons_other by exact E. exact Pc.
+    + unfold P_sm. rewrite flat_map_snoc_nil by reflexivity. exact Ps.
+    + unfold P_blk. rewrite flat_map_snoc_nil by reflexivity. exact Pb.
+  - (* clone *)
+    destruct (existsb (Nat.eqb c) (w_user_conn w)) eqn:Hc; [|exists w, CBad; split; [reflexivity|split; [exact I|split; discriminate]]].
+    destruct (Hheld c Hc) as (x & En & Ew & Er & E1). rewrite Ew.
+    eexists; eexists. split; [reflexivity|]. split; [|split; discriminate]. unfold CInv. cbn [w_conns w_sms w_user_conn w_user_sm w_blocks].
+    split; [|split].
+    + intros c'. destruct (Nat.eq_dec c c') as [E|E].
+      * subst c'. rewrite nth_error_set_nth_same by (apply nth_error_Some; congruence). cbn [c_ref]. rewrite count_cons_same. lia.
+      * rewrite nth_error_set_nth_other by exact E. rewrite count_cons_other by congruence. apply Pr.
+    + unfold P_sm; erewrite flat_map_upd_same; [exact Ps|exact En|reflexivity].
+    + unfold P_blk; erewrite flat_map_upd_same; [exact Pb|exact En|reflexivity].
+  - (* release *)
+    destruct (existsb (Nat.eqb c) (w_user_conn w)) eqn:Hc; [|exists w, CBad; split; [reflexivity|split; [exact I|split; discriminate]]].
+    destruct (Hheld c Hc) as (x & En & Ew & Er & E1). rewrite Ew. apply existsb_in in Hc.
+    destruct (1 <? c_ref x) eqn:Eref.
+    + apply Z.ltb_lt in Eref. eexists; eexists. split; [reflexivity|]. split; [|split; discriminate].
+      unfold CInv. cbn [w_conns w_sms w_user_conn w_user_sm w_blocks]. split; [|split].
+      * intros c'. rewrite count_nat_remove1 by exact Hc. destruct (Nat.eq_dec c c') as [E|E].
+        -- subst c'. rewrite nth_error_set_nth_same by (apply nth_error_Some; congruence). cbn [c_ref]. rewrite Nat.eqb_refl. lia.
+        -- rewrite nth_error_set_nth_other by exact E. destruct (Nat.eqb_spec c' c); [congruence|]. rewrite Z.sub_0_r. apply Pr.
+      * unfold P_sm; erewrite flat_map_upd_same; [exact Ps|exact En|reflexivity].
+      * unfold P_blk; erewrite flat_map_upd_same; [exact Pb|exact En|reflexivity].
+    + apply Z.ltb_ge in Eref.
+      destruct (conn_reset_inv w c x I En) as (w1 & E1r & I1 & Ec1 & Es1 & Eu1 & Eus1). rewrite E1r. cbn [bind].
+      set (x1 := mkC (c_ref x) false [] [] (c_sm x)) in *.
+      assert (En1 : nth_error (w_conns w1) c = Some (Some x1)).
+      { rewrite Ec1. apply nth_error_set_nth_same. apply nth_error_Some. congruence. }
+      destruct I1 as (Pr1 & Ps1 & Pb1).
+      (* free the SM state, if the connection still owns one *)
+      assert (Hsm : exists w2, (match c_sm x with Some s => sm_free w1 s | None => Ok w1 end) = Ok w2 /\
+                    w_conns w2 = w_conns w1 /\ w_user_conn w2 = w_user_conn w1 /\ w_user_sm w2 = w_user_sm w1 /\
+                    P_blk (w_conns w1) (w_sms w2) (w_blocks w2) /\
+                    (forall s', smlive (w_sms w2) s' <-> smlive (w_sms w1) s' /\ Some s' <> c_sm x)).
+      { destruct (c_sm x) as [s|] eqn:Esm.
+        - assert (Hl : smlive (w_sms w1) s).
+          { apply (proj2 Ps1). apply in_or_app. right. apply in_flat_map. exists (Some x1). split; [eapply nth_error_In; exact En1|].
+            unfold x1. cbn [opt_sm c_sm]. rewrite ?Esm. left. reflexivity. }
+          destruct w1 as [bl1 cn1 sm1 uc1 us1]. cbn [w_conns w_sms w_user_conn w_user_sm w_blocks] in *.
+          destruct (sm_free_inv cn1 sm1 bl1 uc1 us1 s Pb1 Hl) as (bl' & Ef & Pb' & Hl'). rewrite Ef.
+          eexists. split; [reflexivity|]. cbn [w_conns w_sms w_user_conn w_user_sm w_blocks]. repeat (split; [reflexivity|]).
+          split; [exact Pb'|]. intros s'. rewrite Hl'. split; intros (A & B); (split; [exact A|congruence]).
+        - exists w1. split; [reflexivity|]. repeat (split; [reflexivity|]). split; [exact Pb1|]. intros s'. split; [intros A; split; [exact A|discriminate]|tauto]. }
+      destruct Hsm as (w2 & E2 & Ec2 & Eu2 & Eus2 & Pb2 & Hl2). rewrite E2. cbn [bind].
+      assert (Ew2 : w_conn w2 c = Some x1) by (apply w_conn_some; rewrite Ec2; exact En1). rewrite Ew2.
+      eexists; eexists. split; [reflexivity|]. split; [|split; discriminate].
+      unfold CInv. cbn [w_conns w_sms w_user_conn w_user_sm w_blocks]. rewrite Ec2, Eus2.
+      split; [|split].
+      * intros c'. rewrite count_nat_remove1 by exact Hc. destruct (Nat.eq_dec c c') as [E|E].
+        -- subst c'. rewrite nth_error_set_nth_same by (apply nth_error_Some; congruence). rewrite Nat.eqb_refl. lia.
+        -- rewrite nth_error_set_nth_other by exact E. destruct (Nat.eqb_spec c' c); [congruence|]. rewrite Z.sub_0_r.
+           pose proof (Pr1 c') as P1. rewrite Eu1 in P1. exact P1.
+      * destruct (flat_map_set_nth _ _ opt_sm (w_conns w1) c (Some x1) En1) as (R & PR & PR').
+        destruct Ps1 as (ND1 & Hin1). rewrite Eus1 in *.
+        assert (Pall : Permutation (w_user_sm w ++ flat_map opt_sm (w_conns w1)) (opt_sm (Some x1) ++ (w_user_sm w ++ R))).
+        { rewrite PR. perm_count. }
+        destruct (perm_nodup_in _ _ Pall) as (A & B). pose proof (proj1 A ND1) as ND'. apply nodup_app in ND'. destruct ND' as (_ & NDr & Dis).
+        assert (P0 : Permutation (w_user_sm w ++ flat_map opt_sm (set_nth c (w_conns w1) None)) (w_user_sm w ++ R)).
+        { rewrite (PR' None). reflexivity. }
+        destruct (perm_nodup_in _ _ P0) as (A0 & B0). split; [apply A0, NDr|].
+        intros s'. rewrite B0, Hl2, <- Hin1, B. unfold x1 in *. cbn [opt_sm c_sm] in *. split.
+        -- intros Hr. split; [apply in_or_app; right; exact Hr|]. intros Es. rewrite <- Es in Dis. apply (Dis s'); [left; reflexivity|exact Hr].
+        -- intros (Hall & Hne). apply in_app_or in Hall. destruct Hall as [Hx|Hr]; [|exact Hr].
+           destruct (c_sm x) as [s|]; [|destruct Hx]. destruct Hx as [Hx|[]]. congruence.
+      * destruct (flat_map_set_nth _ _ opt_blocks (w_conns w1) c (Some x1) En1) as (R & PR & PR').
+        eapply P_blk_transfer; [exact Pb2| |intros; reflexivity].
+        rewrite (PR' None), PR. unfold x1. cbn [opt_blocks c_queue c_handlers handler_blocks flat_map app]. perm_count.
+  - (* connect *)
+    destruct (existsb (Nat.eqb c) (w_user_conn w)) eqn:Hc; [|exists w, CBad; split; [reflexivity|split; [exact I|split; discriminate]]].
+    destruct (Hheld c Hc) as (x & En & Ew & Er & E1). rewrite Ew.
+    destruct (c_connected x); [exists w, CRefused; split; [reflexivity|split; [exact I|split; discriminate]]|].
+    destruct (c_sm x) as [s|] eqn:Esm.
+    + eexists; eexists. split; [reflexivity|]. split; [|split; discriminate]. unfold set_conn, CInv. cbn [w_conns w_sms w_user_conn w_user_sm w_blocks].
+      split; [eapply P_ref_upd; [exact Pr|exact En|reflexivity]|]. split.
+      * unfold P_sm; erewrite flat_map_upd_same; [exact Ps|exact En|]. cbn [opt_sm c_sm]. rewrite Esm. reflexivity.
+      * unfold P_blk; erewrite flat_map_upd_same; [exact Pb|exact En|reflexivity].
+    + eexists; eexists. split; [reflexivity|]. split; [|split; discriminate]. unfold CInv. cbn [w_conns w_sms w_user_conn w_user_sm w_blocks].
+      split; [eapply P_ref_upd; [exact Pr|exact En|reflexivity]|]. split.
+      * destruct (flat_map_set_nth _ _ opt_sm (w_conns w) c (Some x) En) as (R & PR & PR'). destruct Ps as (ND & Hin).
+        set (s := length (w_sms w)).
+        assert (Hns : ~ In s (w_user_sm w ++ flat_map opt_sm (w_conns w))).
+        { intros Hs. apply Hin in Hs. destruct Hs as (q & Hq). assert (s < length (w_sms w))%nat by (apply nth_error_Some; congruence). unfold s in *. lia. }
+        assert (P0 : Permutation (w_user_sm w ++ flat_map opt_sm (set_nth c (w_conns w) (Some (mkC (c_ref x) true (c_queue x) (c_handlers x) (Some s)))))
+                                 (s :: (w_user_sm w ++ flat_map opt_sm (w_conns w)))).
+        { rewrite (PR' _), PR. cbn [opt_sm c_sm]. rewrite Esm. perm_count. }
+        destruct (perm_nodup_in _ _ P0) as (A0 & B0). split; [apply A0; constructor; assumption|].
+        intros s'. rewrite B0. cbn [In]. rewrite Hin. unfold smlive. rewrite nth_error_snoc. fold s.
+        destruct (Nat.ltb_spec s' s) as [Hl|Hl].
+        -- split; [intros [E|D]; [lia|exact D]|intros D; right; exact D].
+        -- destruct (Nat.eqb_spec s' s) as [E|E].
+           ++ split; [intros _; eexists; reflexivity|intros _; left; congruence].
+           ++ split; [intros [E'|(q & D)]; [congruence|]|intros (q & D); discriminate].
+              assert (s' < length (w_sms w))%nat by (apply nth_error_Some; congruence). unfold s in *. lia.
+      * unfold P_blk. rewrite flat_map_snoc_nil by reflexivity. erewrite flat_map_upd_same; [exact Pb|exact En|reflexivity].
+  - (* send *)
+    destruct (existsb (Nat.eqb c) (w_user_conn w)) eqn:Hc; [|exists w, CBad; split; [reflexivity|split; [exact I|split; discriminate]]].
+    destruct (Hheld c Hc) as (x & En & Ew & Er & E1). rewrite Ew.
+    destruct (c_connected x); [|exists w, CRefused; split; [reflexivity|split; [exact I|split; discriminate]]].
+    unfold balloc. eexists; eexists. split; [reflexivity|]. split; [|split; discriminate].
+    unfold set_conn, CInv. cbn [w_conns w_sms w_user_conn w_user_sm w_blocks].
+    split; [eapply P_ref_upd; [exact Pr|exact En|reflexivity]|]. split.
+    + unfold P_sm; erewrite flat_map_upd_same; [exact Ps|exact En|reflexivity].
+    + destruct (flat_map_set_nth _ _ opt_blocks (w_conns w) c (Some x) En) as (R & PR & PR'). destruct Pb as (ND & Hin).
+      set (b := length (w_blocks w)).
+      assert (Hnb : ~ In b (flat_map opt_blocks (w_conns w) ++ flat_map sm_blocks (w_sms w))).
+      { intros Hb. apply Hin, blive_lt in Hb. unfold b in Hb. lia. }
+      assert (P0 : Permutation (flat_map opt_blocks (set_nth c (w_conns w) (Some (mkC (c_ref x) true (c_queue x ++ [b]) (c_handlers x) (c_sm x)))) ++ flat_map sm_blocks (w_sms w))
+                               (b :: (flat_map opt_blocks (w_conns w) ++ flat_map sm_blocks (w_sms w)))).
+      { rewrite (PR' _), PR. cbn [opt_blocks c_queue c_handlers]. perm_count. }
+      destruct (perm_nodup_in _ _ P0) as (A0 & B0). split; [apply A0; constructor; assumption|].
+      intros b'. rewrite B0, blive_snoc. cbn [In]. rewrite Hin. fold b. split; intros [A|B]; auto.
+  - (* written *)
+    destruct (existsb (Nat.eqb c) (w_user_conn w)) eqn:Hc; [|exists w, CBad; split; [reflexivity|split; [exact I|split; discriminate]]].
+    destruct (Hheld c Hc) as (x & En & Ew & Er & E1). rewrite Ew.
+    destruct (c_connected x) eqn:Econ; [|exists w, CRefused; split; [reflexivity|split; [exact I|split; discriminate]]].
+    destruct (c_queue x) as [|b q] eqn:Eq; [exists w, CRefused; split; [reflexivity|split; [exact I|split; discriminate]]|].
+    destruct (c_sm x) as [s|] eqn:Esm; [|exists w, CRefused; split; [reflexivity|split; [exact I|split; discriminate]]].
+    assert (Hl : smlive (w_sms w) s).
+    { apply (proj2 Ps). apply in_or_app. right. apply in_flat_map. exists (Some x). split; [eapply nth_error_In; exact En|].
+      cbn [opt_sm]. rewrite Esm. left. reflexivity. }
+    destruct Hl as (smq & Hq). rewrite Hq.
+    assert (Hbl : blive (w_blocks w) b).
+    { apply (proj2 Pb). apply in_or_app. left. apply in_flat_map. exists (Some x). split; [eapply nth_error_In; exact En|].
+      cbn [opt_blocks]. rewrite Eq. left. reflexivity. }
+    destruct (blive_chown (w_blocks w) b (OwSm s) Hbl) as (bl' & Ech & Hlb). rewrite Ech. cbn [bind].
+    eexists; eexists. split; [reflexivity|]. split; [|split; discriminate].
+    unfold CInv. cbn [w_conns w_sms w_user_conn w_user_sm w_blocks].
+    split; [eapply P_ref_upd; [exact Pr|exact En|reflexivity]|]. split.
+    + eapply P_sm_transfer; [exact Ps| |].
+      * erewrite flat_map_upd_same; [reflexivity|exact En|]. cbn [opt_sm c_sm]. rewrite Esm. reflexivity.
+      * intros s'. unfold smlive. destruct (Nat.eq_dec s s') as [E|E].
+        -- subst. rewrite nth_error_set_nth_same by (apply nth_error_Some; congruence). split; intros _; eexists; [exact Hq|reflexivity].
+        -- rewrite nth_error_set_nth_other by exact E. tauto.
+    + destruct (flat_map_set_nth _ _ opt_blocks (w_conns w) c (Some x) En) as (R & PR & PR').
+      destruct (flat_map_set_nth _ _ sm_blocks (w_sms w) s (Some smq) Hq) as (R2 & PR2 & PR2').
+      eapply P_blk_transfer; [exact Pb| |exact Hlb].
+      rewrite (PR' _), (PR2' _), PR, PR2. cbn [opt_blocks sm_blocks c_queue c_handlers]. rewrite Eq. perm_count.
+  - (* ack *)
+    destruct (existsb (Nat.eqb c) (w_user_conn w)) eqn:Hc; [|exists w, CBad; split; [reflexivity|split; [exact I|split; discriminate]]].
+    destruct (Hheld c Hc) as (x & En & Ew & Er & E1). rewrite Ew.
+    destruct (c_connected x) eqn:Econ; [|exists w, CRefused; split; [reflexivity|split; [exact I|split; discriminate]]].
+    destruct (c_sm x) as [s|] eqn:Esm; [|exists w, CRefused; split; [reflexivity|split; [exact I|split; discriminate]]].
+    assert (Hl : smlive (w_sms w) s).
+    { apply (proj2 Ps). apply in_or_app. right. apply in_flat_map. exists (Some x). split; [eapply nth_error_In; exact En|].
+      cbn [opt_sm]. rewrite Esm. left. reflexivity. }
+    destruct Hl as (smq & Hq). rewrite Hq.
+    destruct smq as [|b smq]; [exists w, CRefused; split; [reflexivity|split; [exact I|split; discriminate]]|].
+    destruct (flat_map_set_nth _ _ sm_blocks (w_sms w) s (Some (b :: smq)) Hq) as (R2 & PR2 & PR2').
+    destruct Pb as (ND & Hin).
+    assert (Pall : Permutation (flat_map opt_blocks (w_conns w) ++ flat_map sm_blocks (w_sms w)) (b :: (flat_map opt_blocks (w_conns w) ++ smq ++ R2))).
+    { rewrite PR2. cbn [sm_blocks]. perm_count. }
+    destruct (perm_nodup_in _ _ Pall) as (A & B). pose proof (proj1 A ND) as ND'. inversion ND' as [|? ? Hnb NDr]; subst.
+    assert (Hbl : blive (w_blocks w) b) by (apply Hin, B; left; reflexivity).
+    destruct (bfree_ok (w_blocks w) b Hbl) as (bl' & Ef & _ & Hlb). rewrite Ef. cbn [bind].
+    eexists; eexists. split; [reflexivity|]. split; [|split; discriminate].
+    unfold CInv. cbn [w_conns w_sms w_user_conn w_user_sm w_blocks]. split; [exact Pr|]. split.
+    + eapply P_sm_transfer; [exact Ps|reflexivity|]. intros s'. unfold smlive. destruct (Nat.eq_dec s s') as [E|E].
+      * subst. rewrite nth_error_set_nth_same by (apply nth_error_Some; congruence). split; intros _; eexists; [exact Hq|reflexivity].
+      * rewrite nth_error_set_nth_other by exact E. tauto.
+    + assert (P0 : Permutation (flat_map opt_blocks (w_conns w) ++ flat_map sm_blocks (set_nth s (w_sms w) (Some smq)))
+                               (flat_map opt_blocks (w_conns w) ++ smq ++ R2)).
+      { rewrite (PR2' _). reflexivity. }
+      destruct (perm_nodup_in _ _ P0) as (A0 & B0). split; [apply A0, NDr|].
+      intros b'. rewrite B0, Hlb, <- Hin, B. cbn [In]. split.
+      * intros Hr. split; [right; exact Hr|]. intros E. subst. contradiction.
+      * intros ([E|Hr] & Hne); [congruence|exact Hr].
+  - (* add handler *)
+    destruct (existsb (Nat.eqb c) (w_user_conn w)) eqn:Hc; [|exists w, CBad; split; [reflexivity|split; [exact I|split; discriminate]]].
+    destruct (Hheld c Hc) as (x & En & Ew & Er & E1). rewrite Ew.
+    destruct (c_connected x); [|exists w, CRefused; split; [reflexivity|split; [exact I|split; discriminate]]].
+    destruct (flat_map_set_nth _ _ opt_blocks (w_conns w) c (Some x) En) as (R & PR & PR'). destruct Pb as (ND & Hin).
+    set (b := length (w_blocks w)).
+    assert (Hnb : forall k, ~ In (b + k)%nat (flat_map opt_blocks (w_conns w) ++ flat_map sm_blocks (w_sms w))).
+    { intros k Hb. apply Hin, blive_lt in Hb. unfold b in Hb. lia. }
+    unfold balloc. cbn [w_conns w_sms w_user_conn w_user_sm w_blocks]. destruct ud.
+    + cbn [w_conns w_sms w_user_conn w_user_sm w_blocks]. eexists; eexists. split; [reflexivity|]. split; [|split; discriminate].
+      unfold set_conn, CInv. cbn [w_conns w_sms w_user_conn w_user_sm w_blocks].
+      split; [eapply P_ref_upd; [exact Pr|exact En|reflexivity]|]. split.
+      * unfold P_sm; erewrite flat_map_upd_same; [exact Ps|exact En|reflexivity].
+      * rewrite app_length. cbn [length]. fold b.
+        assert (P0 : Permutation (flat_map opt_blocks (set_nth c (w_conns w) (Some (mkC (c_ref x) true (c_queue x) (c_handlers x ++ [(b, Some (b + 1)%nat)]) (c_sm x)))) ++ flat_map sm_blocks (w_sms w))
+                                 (b :: (b + 1)%nat :: (flat_map opt_blocks (w_conns w) ++ flat_map sm_blocks (w_sms w)))).
+        { rewrite (PR' _), PR. cbn [opt_blocks c_queue c_handlers]. unfold handler_blocks. rewrite flat_map_app. cbn [flat_map fst snd app]. perm_count. }
+        destruct (perm_nodup_in _ _ P0) as (A0 & B0). split.
+        -- apply A0. constructor; [|constructor; [|exact ND]].
+           ++ intros [E|Hb]; [lia|]. apply (Hnb O). rewrite Nat.add_0_r. exact Hb.
+           ++ apply Hnb.
+        -- intros b'. rewrite B0. replace (w_blocks w ++ [Some (OwConn c)] ++ [Some (OwConn c)]) with ((w_blocks w ++ [Some (OwConn c)]) ++ [Some (OwConn c)]) by (rewrite <- app_assoc; reflexivity).
+           rewrite blive_snoc, blive_snoc, app_length. cbn [In length]. fold b. rewrite Hin. split; [intros [A|[A|A]]; [left; right; lia|right; lia|left; left; exact A]|].
+           intros [[A|A]|A]; [right; right; exact A|left; lia|right; left; lia].
+    + eexists; eexists. split; [reflexivity|]. split; [|split; discriminate].
+      unfold set_conn, CInv. cbn [w_conns w_sms w_user_conn w_user_sm w_blocks].
+      split; [eapply P_ref_upd; [exact Pr|exact En|reflexivity]|]. split.
+      * unfold P_sm; erewrite flat_map_upd_same; [exact Ps|exact En|reflexivity].
+      * fold b.
+        assert (P0 : Permutation (flat_map opt_blocks (set_nth c (w_conns w) (Some (mkC (c_ref x) true (c_queue x) (c_handlers x ++ [(b, None)]) (c_sm x)))) ++ flat_map sm_blocks (w_sms w))
+                                 (b :: (flat_map opt_blocks (w_conns w) ++ flat_map sm_blocks (w_sms w)))).
+        { rewrite (PR' _), PR. cbn [opt_blocks c_queue c_handlers]. unfold handler_blocks. rewrite flat_map_app. cbn [flat_map fst snd app]. perm_count. }
+        destruct (perm_nodup_in _ _ P0) as (A0 & B0). split.
+        -- apply A0. constructor; [|exact ND]. intros Hb. apply (Hnb O). rewrite Nat.add_0_r. exact Hb.
+        -- intros b'. rewrite B0, blive_snoc. cbn [In]. rewrite Hin. fold b. split; intros [A|B]; auto.
+  - (* handler done *)
+    destruct (existsb (Nat.eqb c) (w_user_conn w)) eqn:Hc; [|exists w, CBad; split; [reflexivity|split; [exact I|split; discriminate]]].
+    destruct (Hheld c Hc) as (x & En & Ew & Er & E1). rewrite Ew.
+    destruct (c_connected x) eqn:Econ; [|exists w, CRefused; split; [reflexivity|split; [exact I|split; discriminate]]].
+    destruct (c_handlers x) as [|[it u] hs] eqn:Eh; [exists w, CRefused; split; [reflexivity|split; [exact I|split; discriminate]]|].
+    destruct (flat_map_set_nth _ _ opt_blocks (w_conns w) c (Some x) En) as (R & PR & PR'). destruct Pb as (ND & Hin).
+    set (fb := it :: match u with Some u => [u] | None => [] end).
+    assert (Pall : Permutation (flat_map opt_blocks (w_conns w) ++ flat_map sm_blocks (w_sms w))
+                               (fb ++ ((c_queue x ++ handler_blocks true hs) ++ R ++ flat_map sm_blocks (w_sms w)))).
+    { rewrite PR. cbn [opt_blocks]. rewrite Eh. unfold handler_blocks at 1. cbn [flat_map fst snd]. fold (handler_blocks true hs). fold fb. perm_count. }
+    destruct (perm_nodup_in _ _ Pall) as (A & B). pose proof (proj1 A ND) as ND'. apply nodup_app in ND'. destruct ND' as (NDf & NDr & Dis).
+    destruct (bfree_all_ok fb (w_blocks w) NDf) as (bl' & Ef & _ & Hlb).
+    { intros b Hb. apply Hin, B, in_or_app. left. exact Hb. }
+    fold fb. rewrite Ef. cbn [bind].
+    eexists; eexists. split; [reflexivity|]. split; [|split; discriminate].
+    unfold set_conn, CInv. cbn [w_conns w_sms w_user_conn w_user_sm w_blocks].
+    split; [eapply P_ref_upd; [exact Pr|exact En|reflexivity]|]. split.
+    + unfold P_sm; erewrite flat_map_upd_same; [exact Ps|exact En|reflexivity].
+    + assert (P0 : Permutation (flat_map opt_blocks (set_nth c (w_conns w) (Some (mkC (c_ref x) true (c_queue x) hs (c_sm x)))) ++ flat_map sm_blocks (w_sms w))
+                               ((c_queue x ++ handler_blocks true hs) ++ R ++ flat_map sm_blocks (w_sms w))).
+      { rewrite (PR' _). cbn [opt_blocks c_queue c_handlers]. perm_count. }
+      destruct (perm_nodup_in _ _ P0) as (A0 & B0). split; [apply A0, NDr|].
+      intros b'. rewrite B0, Hlb, <- Hin, B. split.
+      * intros Hr. split; [apply in_or_app; right; exact Hr|]. intros Hx. apply (Dis b' Hx Hr).
+      * intros (Hall & Hne). apply in_app_or in Hall. destruct Hall as [Hx|Hr]; [contradiction|exact Hr].
+  - (* disconnect *)
+    destruct (existsb (Nat.eqb c) (w_user_conn w)) eqn:Hc; [|exists w, CBad; split; [reflexivity|split; [exact I|split; discriminate]]].
+    destruct (Hheld c Hc) as (x & En & Ew & Er & E1). rewrite Ew.
+    destruct (c_connected x); [|exists w, CRefused; split; [reflexivity|split; [exact I|split; discriminate]]].
+    destruct (conn_reset_inv w c x I En) as (w1 & E1r & I1 & _). rewrite E1r.
+    eexists; eexists. split; [reflexivity|]. split; [exact I1|split; discriminate].
+  - (* get_sm_state *)
+    destruct (existsb (Nat.eqb c) (w_user_conn w)) eqn:Hc; [|exists w, CBad; split; [reflexivity|split; [exact I|split; discriminate]]].
+    destruct (Hheld c Hc) as (x & En & Ew & Er & E1). rewrite Ew.
+    destruct (c_connected x); [exists w, CRefused; split; [reflexivity|split; [exact I|split; discriminate]]|].
+    destruct (c_sm x) as [s|] eqn:Esm; [|exists w, CRefused; split; [reflexivity|split; [exact I|split; discriminate]]].
+    eexists; eexists. split; [reflexivity|]. split; [|split; discriminate].
+    unfold CInv. cbn [w_conns w_sms w_user_conn w_user_sm w_blocks].
+    split; [eapply P_ref_upd; [exact Pr|exact En|reflexivity]|]. split.
+    + destruct (flat_map_set_nth _ _ opt_sm (w_conns w) c (Some x) En) as (R & PR & PR').
+      eapply P_sm_transfer; [exact Ps| |intros; reflexivity].
+      rewrite (PR' _), PR. cbn [opt_sm c_sm]. rewrite Esm. perm_count.
+    + unfold P_blk; erewrite flat_map_upd_same; [exact Pb|exact En|reflexivity].
+  - (* set_sm_state *)
+    destruct (existsb (Nat.eqb c) (w_user_conn w)) eqn:Hc; cbn [andb]; [|exists w, CBad; split; [reflexivity|split; [exact I|split; discriminate]]].
+    destruct (existsb (Nat.eqb s) (w_user_sm w)) eqn:Hs; [|exists w, CBad; split; [reflexivity|split; [exact I|split; discriminate]]].
+    destruct (Hheld c Hc) as (x & En & Ew & Er & E1). rewrite Ew. apply existsb_in in Hs.
+    destruct (c_connected x); [exists w, CRefused; split; [reflexivity|split; [exact I|split; discriminate]]|].
+    destruct (c_sm x) as [s0|] eqn:Esm; [exists w, CRefused; split; [reflexivity|split; [exact I|split; discriminate]]|].
+    eexists; eexists. split; [reflexivity|]. split; [|split; discriminate].
+    unfold CInv. cbn [w_conns w_sms w_user_conn w_user_sm w_blocks].
+    split; [eapply P_ref_upd; [exact Pr|exact En|reflexivity]|]. split.
+    + destruct (flat_map_set_nth _ _ opt_sm (w_conns w) c (Some x) En) as (R & PR & PR').
+      eapply P_sm_transfer; [exact Ps| |intros; reflexivity].
+      rewrite (PR' _), PR. cbn [opt_sm c_sm]. rewrite Esm. rewrite (perm_remove1 _ _ Hs) at 2. perm_count.
+    + unfold P_blk; erewrite flat_map_upd_same; [exact Pb|exact En|reflexivity].
+  - (* free_sm_state *)
+    destruct (existsb (Nat.eqb s) (w_user_sm w)) eqn:Hs; [|exists w, CBad; split; [reflexivity|split; [exact I|split; discriminate]]].
+    apply existsb_in in Hs.
+    assert (Hl : smlive (w_sms w) s) by (apply (proj2 Ps), in_or_app; left; exact Hs).
+    destruct w as [bl cn sm uc us]. cbn [w_conns w_sms w_user_conn w_user_sm w_blocks] in *.
+    destruct (sm_free_inv cn sm bl uc us s Pb Hl) as (bl' & Ef & Pb' & Hl'). rewrite Ef. cbn [bind].
+    eexists; eexists. split; [reflexivity|]. split; [|split; discriminate].
+    unfold CInv. cbn [w_conns w_sms w_user_conn w_user_sm w_blocks]. split; [exact Pr|]. split; [|exact Pb'].
+    destruct Ps as (ND & Hin).
+    assert (Pall : Permutation (us ++ flat_map opt_sm cn) (s :: (remove1 s us ++ flat_map opt_sm cn))).
+    { rewrite (perm_remove1 _ _ Hs) at 1. perm_count. }
+    destruct (perm_nodup_in _ _ Pall) as (A & B). pose proof (proj1 A ND) as ND'. inversion ND' as [|? ? Hns NDr]; subst.
+    split; [exact NDr|]. intros s'. rewrite Hl', <- Hin, B. cbn [In]. split.
+    + intros Hr. split; [right; exact Hr|]. intros E. subst. contradiction.
+    + intros ([E|Hr] & Hne); [congruence|exact Hr].
+Qed.
+
+(* ------------------------------------------------------------------------------------ *)
+(* programs and theorems                                                                  *)
+(* ------------------------------------------------------------------------------------ *)
+Lemma cinv_init : CInv cinit.
+Proof.
+  unfold CInv, cinit. cbn [w_conns w_sms w_user_conn w_user_sm w_blocks]. split; [|split].
+  - intros c. destruct c; reflexivity.
+  - split; [constructor|]. intros s. split; [intros []|intros (q & D); destruct s; discriminate].
+  - split; [constructor|]. intros b. split; [intros []|intros (o & D); destruct b; discriminate].
+Qed.
+
+Lemma crun_inv : forall prog w, CInv w ->
+  exists outs w', crun_from true w prog = (outs, Some w') /\ CInv w' /\ Forall cok outs.
+Proof.
+  induction prog as [|o r IH]; intros w I.
+  - exists [], w. split; [reflexivity|]. split; [exact I|constructor].
+  - destruct (cstep_inv w o I) as (w1 & out & E & I1 & Ok1). destruct (IH w1 I1) as (outs & w' & Er & I' & Fo).
+    exists (out :: outs), w'. cbn [crun_from]. rewrite E, Er. split; [reflexivity|]. split; [exact I'|constructor; assumption].
+Qed.
+
+Lemma nodup_count_le : forall l s, NoDup l -> count_nat l s <= 1.
+Proof.
+  induction l as [|a l IH]; intros s ND; [rewrite count_nat_nil; lia|]. inversion ND as [|? ? Hn ND']; subst.
+  rewrite count_nat_cons. destruct (Nat.eqb_spec s a) as [E|E]; [|specialize (IH s ND'); lia].
+  subst. rewrite (count_nat_notin l a Hn). lia.
+Qed.
+
+Lemma sm_owners_count : forall w s,
+  sm_owners w s = count_nat (w_user_sm w ++ flat_map opt_sm (w_conns w)) s.
+Proof.
+  intros w s. unfold sm_owners. rewrite count_nat_app. f_equal.
+  induction (w_conns w) as [|o l IH]; [reflexivity|]. cbn [filter flat_map]. rewrite count_nat_app, <- IH.
+  destruct o as [x|]; [|rewrite count_nat_nil; lia]. cbn [opt_sm]. destruct (c_sm x) as [s'|]; [|rewrite count_nat_nil; lia].
+  rewrite count_nat_cons, count_nat_nil. destruct (Nat.eqb s s'); unfold zlen; cbn [length]; lia.
+Qed.
+
+Lemma cinv_sm_single_owner : forall w, CInv w -> sm_single_owner w.
+Proof.
+  intros w (_ & (ND & Hin) & _) s Hs. rewrite sm_owners_count.
+  destruct (nth_error (w_sms w) s) as [[q|]|] eqn:E.
+  - left. split; [exists q; exact E|]. assert (In s (w_user_sm w ++ flat_map opt_sm (w_conns w))) by (apply Hin; exists q; exact E).
+    apply count_nat_in in H. pose proof (nodup_count_le _ s ND). lia.
+  - right. split; [reflexivity|]. apply count_nat_notin. intros Hi. apply Hin in Hi. destruct Hi as (q & D). congruence.
+  - apply nth_error_None in E. lia.
+Qed.
+
+Lemma sm_state_single_owner_proof : forall prog,
+  Forall (fun o => o <> CUAF /\ o <> CDoubleFree) (fst (crun true prog)) /\
+  exists w, snd (crun true prog) = Some w /\ sm_single_owner w.
+Proof.
+  intros prog. destruct (crun_inv prog cinit cinv_init) as (outs & w & E & I & Fo). unfold crun. rewrite E. cbn [fst snd].
+  split; [exact Fo|]. exists w. split; [reflexivity|apply cinv_sm_single_owner; exact I].
+Qed.
+
+Lemma all_none_filter : forall A (l : list (option A)), (forall i a, nth_error l i <> Some (Some a)) ->
+  filter (fun c => match c with Some _ => true | None => false end) l = [].
+Proof.
+  induction l as [|o l IH]; intros Hn; [reflexivity|]. cbn [filter]. destruct o as [a|].
+  - exfalso. apply (Hn O a). reflexivity.
+  - apply IH. intros i a. apply (Hn (S i) a).
+Qed.
+
+Lemma flat_map_all_nil : forall A B (f : A -> list B) l, (forall x, In x l -> f x = []) -> flat_map f l = [].
+Proof.
+  induction l as [|x l IH]; intros Hn; [reflexivity|]. cbn [flat_map]. rewrite (Hn x (or_introl eq_refl)). apply IH.
+  intros y Hy. apply Hn. right. exact Hy.
+Qed.
+
+Lemma cinv_all_freed : forall w, CInv w -> w_user_conn w = [] -> w_user_sm w = [] -> clive w = 0.
+Proof.
+  intros w (Pr & (NDs & Hs) & (NDb & Hb)) Euc Eus. rewrite Euc in Pr. rewrite Eus in Hs, NDs.
+  assert (Hc : forall i x, nth_error (w_conns w) i <> Some (Some x)).
+  { intros i x E. specialize (Pr i). rewrite E in Pr. rewrite count_nat_nil in Pr. lia. }
+  assert (Hcn : forall o, In o (w_conns w) -> o = None).
+  { intros o Ho. destruct o as [x|]; [|reflexivity]. apply In_nth_error in Ho. destruct Ho as (i & E). exfalso. apply (Hc i x E). }
+  assert (Esm : flat_map opt_sm (w_conns w) = []).
+  { apply flat_map_all_nil. intros o Ho. rewrite (Hcn o Ho). reflexivity. }
+  assert (Hsm : forall i q, nth_error (w_sms w) i <> Some (Some q)).
+  { intros i q E. assert (In i ([] ++ flat_map opt_sm (w_conns w))) by (apply Hs; exists q; exact E). rewrite Esm in H. destruct H. }
+  assert (Ebc : flat_map opt_blocks (w_conns w) = []).
+  { apply flat_map_all_nil. intros o Ho. rewrite (Hcn o Ho). reflexivity. }
+  assert (Ebs : flat_map sm_blocks (w_sms w) = []).
+  { apply flat_map_all_nil. intros o Ho. destruct o as [q|]; [|reflexivity]. apply In_nth_error in Ho. destruct Ho as (i & E). exfalso. apply (Hsm i q E). }
+  assert (Hbl : forall i o, nth_error (w_blocks w) i <> Some (Some o)).
+  { intros i o E. assert (In i (flat_map opt_blocks (w_conns w) ++ flat_map sm_blocks (w_sms w))) by (apply Hb; exists o; exact E).
+    rewrite Ebc, Ebs in H. destruct H. }
+  unfold clive. rewrite (all_none_filter _ _ Hc), (all_none_filter _ _ Hsm), (all_none_filter _ _ Hbl). reflexivity.
+Qed.
+
+Lemma conn_refcount_proof : forall prog w,
+  snd (crun true prog) = Some w ->
+  conn_ref_spec w /\
+  (forall c, In c (w_user_conn w) ->
+     exists w', fst (cstep true w (CRelease c)) = Some w' /\
+       (count_nat (w_user_conn w) c = 1 -> snd (cstep true w (CRelease c)) = CReleased true /\ nth_error (w_conns w') c = Some None) /\
+       (1 < count_nat (w_user_conn w) c -> snd (cstep true w (CRelease c)) = CReleased false /\ w_blocks w' = w_blocks w /\
+                                         exists x, nth_error (w_conns w') c = Some (Some x))) /\
+  (w_user_conn w = [] -> w_user_sm w = [] -> clive w = 0).
+Proof.
+  intros prog w Hr. destruct (crun_inv prog cinit cinv_init) as (outs & w0 & E & I & _). unfold crun in Hr. rewrite E in Hr.
+  cbn [snd] in Hr. inversion Hr; subst w0. pose proof I as (Pr & _). split; [|split; [|apply cinv_all_freed; exact I]].
+  - intros c Hc. specialize (Pr c). destruct (nth_error (w_conns w) c) as [[x|]|]; exact Pr.
+  - intros c Hc. destruct (P_ref_held _ _ c Pr Hc) as (x & En & Er & E1).
+    destruct (cstep_inv w (CRelease c) I) as (w' & out & Es & _ & _).
+    exists w'. rewrite Es. cbn [fst snd]. split; [reflexivity|].
+    cbn [cstep] in Es. rewrite (proj2 (existsb_in c (w_user_conn w)) Hc), (w_conn_some w c x En) in Es.
+    split; intros Hcnt.
+    + assert (Eref : (1 <? c_ref x) = false) by (apply Z.ltb_ge; lia). rewrite Eref in Es.
+      destruct (conn_reset true w c x) as [w1| | |]; cbn [bind] in Es; try discriminate.
+      destruct (match c_sm x with Some s => sm_free w1 s | None => Ok w1 end) as [w2| | |]; cbn [bind] in Es; try discriminate.
+      destruct (w_conn w2 c) as [x2|] eqn:Ew2; try discriminate. inversion Es; subst. split; [reflexivity|].
+      cbn [w_conns]. apply nth_error_set_nth_same. apply nth_error_Some. unfold w_conn in Ew2.
+      destruct (nth_error (w_conns w2) c); [discriminate|discriminate].
+    + assert (Eref : (1 <? c_ref x) = true) by (apply Z.ltb_lt; lia). rewrite Eref in Es. inversion Es; subst.
+      split; [reflexivity|]. split; [reflexivity|]. cbn [w_conns]. eexists. apply nth_error_set_nth_same. apply nth_error_Some. congruence.
+Qed.
+
+Lemma unfixed_conn_reset_leaks_proof :
+  exists prog w, snd (crun false prog) = Some w /\ w_user_conn w = [] /\ w_user_sm w = [] /\ 0 < clive w.
+Proof.
+  exists [CNew; CConnect 0; CAddHandler 0 true; CDisconnect 0; CRelease 0]. eexists. vm_compute. repeat split; reflexivity.
+Qed.
